@@ -5,8 +5,10 @@ import (
 	"context"
 	"fmt"
 	"os"
+	"path/filepath"
 	"strings"
 	"testing"
+	"verif/harness/world"
 
 	"github.com/pojntfx/stfs/pkg/config"
 	"pgregory.net/rapid"
@@ -84,6 +86,26 @@ func (o *c04) After(x *hctx, s hist.Step, res hist.Res, mres hist.MRes) string {
 		}
 	}
 	// ---- track which record wrote each entry's content (independent of the index) ----
+	if res.Err != nil && (s.Op == "arch_archive" || (s.Op == "arch_update" && s.Replace)) {
+		// a batch that stopped at a member whose source could not be opened: the members in
+		// front of it were written (and have to be indexed like any others)
+		k := -1
+		for i, mb := range s.Members {
+			if mb.FailOpen {
+				k = i
+				break
+			}
+		}
+		if k > 0 && len(fresh) == k {
+			for i := 0; i < k; i++ {
+				o.expect[hist_clean(s.Members[i].Path)] = fresh[i].Off
+			}
+		} else if k >= 0 {
+			for i := 0; i < len(s.Members); i++ {
+				delete(o.expect, hist_clean(s.Members[i].Path)) // not tracked beyond this point
+			}
+		}
+	}
 	if res.Err == nil {
 		switch s.Op {
 		case "create", "openfile", "mkdir":
@@ -236,7 +258,50 @@ func (o *c04) slotPath(x *hctx, slot int) string {
 	return p
 }
 
-func (o *c04) End(x *hctx) string { return "" }
+// End: whatever an index rebuild accepts of a tape with one unacceptable record in the middle
+// (an unsupported STFS.Version, or a flipped bit in its PAX data), every position it records
+// is the start of a record, and no two live entries claim the same record.
+func (o *c04) End(x *hctx) string {
+	for i, sl := range x.r.Slots {
+		if sl != nil {
+			x.r.Do(hist.Step{Op: "close", Slot: i})
+		}
+	}
+	dmg, what, ok := c16Damage(x.r.W.TapeBytes(), x.cfg.RecordSize)
+	if !ok {
+		return ""
+	}
+	side := world.NewDir("c04dmg")
+	defer os.RemoveAll(side)
+	drv := filepath.Join(side, "drv", "drive.tar")
+	_ = os.MkdirAll(filepath.Dir(drv), 0700)
+	_ = os.WriteFile(drv, dmg, 0600)
+	w := worldOver(x.f, x.cfg, side, drv, filepath.Join(side, "index.sqlite"), false)
+	defer w.Close()
+	var ierr error
+	checkObs(x.f, hist.Call("index a damaged tape", func() { ierr = w.Reindex(true, nil) }), "index rebuild of a tape with "+what)
+	live.S.AddInner(1)
+	// (record starts are those of the undamaged tape: the damage is in place)
+	starts := observe.TapeScan(x.r.W.TapeBytes(), x.cfg.RecordSize, false).Starts()
+	rows, _ := observe.IndexDump(w.DB)
+	rs := int64(x.cfg.RecordSize)
+	at := map[[2]int64]string{}
+	for _, r := range rows {
+		if r.Deleted != 0 || r.Name == "" || r.Name == "/" {
+			continue
+		}
+		if _, ok := starts[(r.Record*rs+r.Block)*512]; !ok {
+			return fmt.Sprintf("index rebuilt (err=%v) from a tape with %s: row %q has position (%d,%d), which is not the start of a record", ierr, what, r.Name, r.Record, r.Block)
+		}
+		k := [2]int64{r.Record, r.Block}
+		if other, dup := at[k]; dup {
+			return fmt.Sprintf("index rebuilt (err=%v) from a tape with %s: the live entries %q and %q both claim the record at (%d,%d)", ierr, what, other, r.Name, r.Record, r.Block)
+		}
+		at[k] = r.Name
+	}
+	live.S.Class("damaged-tape-positions-judged")
+	return ""
+}
 func (o *c04) Nontrivial(x *hctx) bool {
 	for b, n := range o.offBlock {
 		live.S.ClassN(fmt.Sprintf("start-block-mod:%d", b%8), n)
